@@ -832,7 +832,15 @@ def search(ctx, deep):
             if extra:
                 inp.update(extra)
             if len(lanes) > 8:     # keep the replay self-contained but small: the offending lane(s)
-                inp['lanes'] = [obs['lane']] if isinstance(obs, dict) and obs.get('lane') else lanes[:8]
+                o = obs if isinstance(obs, dict) else {}
+                if o.get('invalid_lanes'):
+                    inp['lanes'] = list(o['invalid_lanes'])
+                elif o.get('lane') and o.get('slowest'):
+                    inp['lanes'] = [o['lane'], o['slowest']]
+                elif o.get('lane'):
+                    inp['lanes'] = [o['lane']]
+                else:
+                    inp['lanes'] = lanes[:8]
                 inp['truncated'] = True
             ctx.fail_input(f'copulas.optimize.{method}', inp, obs, req, cls)
     for b in range(nb):
